@@ -152,7 +152,7 @@ func (c *fnCtx) ptrTypeOf(st *ast.StarExpr) *fnType {
 		return nil
 	}
 	if ok, why := c.immutableStruct(ts); !ok {
-		c.lostAt(st, "type %s: pointer to a struct that is changed after its creation (%s)", src(st), why)
+		c.lostAt(st, "type %s: pointer to a struct that is changed after its creation (%s); such pointers are supported as a read-only parameter whose scalar fields are read, and as the elements of a receiver field declared distinct:", src(st), why)
 	}
 	t := c.structTypeOf(st.X)
 	if t == nil {
